@@ -151,6 +151,32 @@ def run_case(case, stats):
             if got_g != exp_g:
                 raise Violation("rows-differ", f"program {fmt(guarded, leaves)}; tree {rel_g}; expected {show_rows(exp_g)} got {show_rows(got_g)}")
             stats.c["guarded-selection-pairs"] += 1
+        # one expression object, two engines: a calculation with the user-defined function (registered by every engine
+        # with its own factor) is applied here and, through a transfer, in the other iteration engine - the same library
+        # expression object serves both, and each engine must use its own function
+        if gcols and int(codec.digest(case)[6:8], 16) % 4 == 0:
+            from vf.core.prog import engine_of
+
+            fresh = [t for t in universe if t not in gcols]
+            here = engine_of(prog, leaves)
+            other = 2 if here == 1 else 1
+            if fresh and here in (1, 2):
+                c0 = gcols[0]
+                first, second = (here, other) if int(codec.digest(case)[8:10], 16) % 2 else (other, here)
+                for eng_i in (first, second):
+                    src = prog if eng_i == here else ("xfer", prog, other)
+                    node = ("calc", src, fresh[0], ("cfun", eng_i, ("ref", c0)))
+                    exp_c = ev_list(node, leaves, check_fd=True)
+                    try:
+                        rel_c = build_all(node, env, rels)[id(node)]
+                        got_c = env.run_iter(rel_c)
+                    except BuildError as b:
+                        raise Violation("build-raised", f"factory call for {fmt(b.node, leaves)} raised {type(b.exc).__name__}: {b.exc}", exc=b.exc, node_kind="calc")
+                    except Exception as e:
+                        raise Violation("execute-raised", f"{type(e).__name__}: {e}; relation {rel_c}; program {fmt(node, leaves)}", exc=e)
+                    if got_c != exp_c:
+                        raise Violation("rows-differ", f"one expression object used in two engines: program {fmt(node, leaves)}; tree {rel_c}; expected {show_rows(exp_c)} got {show_rows(got_c)}")
+                stats.c["shared-expression-two-engines"] += 1
         # equal relations are not interchangeable: the same program over twin leaves (same names, columns and engines,
         # other rows) builds trees that compare equal to the ones above; chaining the two must concatenate their rows
         if int(codec.digest(case)[:2], 16) % 2 == 0:
